@@ -9,7 +9,7 @@
 using namespace datasketches;
 namespace vf { namespace c11 {
 
-unsigned variants(bool thorough) { return thorough ? 20 : 4; }
+unsigned variants(bool thorough) { return thorough ? 20 : 3; }
 
 // ------------------------------------------------------------------ theta
 template<typename S> static std::string theta_common(const S& s) {
